@@ -114,11 +114,29 @@ def buffer_rindex(ev, recv, args, kwargs, node):
     t, sub = recv.t, args[0].t
     has = z3.Contains(t, sub)
     if not ev.st.decide(has):
+        _positional_instances(ev, t, sub, None)
         raise PyRaise("ValueError", None, getattr(node, "lineno", 0))
     i = ufunc("last_index_of", S, S, I)(t, sub)
     ev.st.assume(z3.And(i >= 0, i + z3.Length(sub) <= z3.Length(t), z3.SubString(t, i, z3.Length(sub)) == sub,
                         z3.Not(z3.Contains(z3.SubString(t, i + 1, z3.Length(t)), sub))))
+    _positional_instances(ev, t, sub, i)
     return VInt(i)
+
+
+def _positional_instances(ev, t, sub, last):
+    """ground instances, at the ghost position gi and at gi + 1, of what 'last index' / 'absent' mean position by
+    position:  t[p] == sub  implies  p <= last   (resp. t[p] != sub when sub does not occur).  They follow from the
+    definition of rindex; the string solvers do not derive them from the Contains form by themselves."""
+    g = ev.st.ghost.get("gi")
+    if g is None:
+        return
+    n = z3.Length(sub)
+    for p in (g.t, g.t + 1):
+        occ = z3.And(p >= 0, z3.SubString(t, p, n) == sub)
+        if last is None:
+            ev.st.assume(z3.Not(occ))
+        else:
+            ev.st.assume(z3.Implies(occ, p <= last))
 
 
 LAST_NEWLINE = Contract(
@@ -133,15 +151,145 @@ LAST_NEWLINE = Contract(
                                              "last_index_of(self.buffer, b'\\r') if has(self.buffer, b'\\r') else len(self.buffer))",
         "at_a_break": "result == len(self.buffer) or self.buffer[result:result + 1] == b'\\n' or self.buffer[result:result + 1] == b'\\r'",
         "none": "implies(not has(self.buffer, b'\\n') and not has(self.buffer, b'\\r'), result == len(self.buffer))",
+        # the released prefix is safe for EVERY continuation of the stream: an incomplete delimiter is a line break
+        # followed by text without line breaks ('--' + boundary + optional '--' / blanks), and no suffix of the buffer
+        # that starts before the hold-back point has that shape - so nothing that is released can turn out to be the
+        # beginning of a delimiter once more bytes arrive
+        # Position by position (gi is an arbitrary position: proved for the symbol, quantified at call sites): the suffix
+        # at gi has that shape iff  buffer[gi] is CR or LF,  no CR/LF occurs after position gi + 1 (i.e. the last CR and
+        # the last LF are at <= gi + 1),  and buffer[gi + 1] is not a line break of its own (only the LF of a CRLF).
+        "no_released_byte_starts_a_partial_delimiter": "implies(0 <= gi and gi < result, not partial_at(gi))",
     },
+    defs={
+        "brk(j)": "self.buffer[j:j + 1] == b'\\r' or self.buffer[j:j + 1] == b'\\n'",
+        "no_break_after(j)": "(not has(self.buffer, b'\\r') or last_index_of(self.buffer, b'\\r') <= j) and "
+                             "(not has(self.buffer, b'\\n') or last_index_of(self.buffer, b'\\n') <= j)",
+        "partial_at(j)": "brk(j) and no_break_after(j + 1) and "
+                         "(not brk(j + 1) or (self.buffer[j:j + 1] == b'\\r' and self.buffer[j + 1:j + 2] == b'\\n'))",
+    },
+    ghosts={"gi": Int}, forall_ghosts=["gi"],
     canaries={"always_end": "result == len(self.buffer)"},
     assumptions=["A-bytes"],
 )
 
 
+# ----- MultipartDecoder.next_event in the DATA state (the streaming step of a part body)
+TAIL_RE = r"(--[ \t\x0b\x0c]*(\r\n|\n|\r)?|[ \t\x0b\x0c]*(\r\n|\n|\r))"   # [^\S\n\r] on bytes: blank, tab, VT, FF
+MG_T = ObjT("MatchGhost", found=Bool, s=Int, e=Int, g1=Bytes, lb=Bytes)
+ST_CONST = {"PREAMBLE": 0, "PART": 1, "DATA": 2, "EPILOGUE": 3, "COMPLETE": 4}
+
+
+def re_search_stub(ev, recv, args, kwargs, node):
+    """self.boundary_re.search(buffer) (A-re-search): None, or a match  buffer[s:e] == line-break '--' boundary g1  with
+    g1 in ('--' blanks* line-break? | blanks* line-break).  (That the match is the LEFTMOST one is the regex engine's
+    business and is not used by the clauses below.)  The outcome is named by the ghost `m`."""
+    from pyvc.regex import to_z3
+    USED.add("A-re-search")
+    st = ev.st
+    m = st.obj(st.ghost["m"])
+    buf = args[0].t
+    me = st.obj(ev.frame.lookup("self"))
+    if not st.decide(m.fields["found"].t):
+        return NONE
+    s_, e_, g1, lb = m.fields["s"].t, m.fields["e"].t, m.fields["g1"].t, m.fields["lb"].t
+    st.assume(z3.And(0 <= s_, s_ <= e_, e_ <= z3.Length(buf)))
+    st.assume(z3.Or(lb == z3.StringVal("\r\n"), lb == z3.StringVal("\n"), lb == z3.StringVal("\r")))
+    st.assume(z3.SubString(buf, s_, e_ - s_) == z3.Concat(lb, z3.StringVal("--"), me.fields["boundary"].t, g1))
+    st.assume(z3.InRe(g1, to_z3(TAIL_RE)))
+    return st.alloc(Obj("Match", {"s": VInt(s_), "e": VInt(e_), "g1": VStr(g1, True)}))
+
+
+re_search_stub.mods = ()
+re_search_stub.mutates_recv = False
+
+
+def _m_start(ev, recv, args, kwargs, node):
+    return ev.st.obj(recv).fields["s"]
+
+
+def _m_end(ev, recv, args, kwargs, node):
+    return ev.st.obj(recv).fields["e"]
+
+
+def _m_group(ev, recv, args, kwargs, node):
+    return ev.st.obj(recv).fields["g1"]
+
+
+for _f in (_m_start, _m_end, _m_group):
+    _f.mods = ()
+    _f.mutates_recv = False
+
+
+def _data_ctor(ev, args, kwargs, node):
+    return ev.st.alloc(Obj("Data", {"data": kwargs["data"], "more_data": kwargs["more_data"]}))
+
+
+def _state_ns(ev):
+    return ev.st.alloc(Obj("StateNS", {k: VInt(v) for k, v in ST_CONST.items()}))
+
+
+NE_DEFS = {
+    "is_data()": "not is_need()",
+    "is_need()": "result == NEED",
+    "delim()": "m.lb + b'--' + self.boundary + m.g1",
+    "brk0(j)": "old(self.buffer)[j:j + 1] == b'\\r' or old(self.buffer)[j:j + 1] == b'\\n'",
+    "nba0(j)": "(not has(old(self.buffer), b'\\r') or last_index_of(old(self.buffer), b'\\r') <= j) and "
+               "(not has(old(self.buffer), b'\\n') or last_index_of(old(self.buffer), b'\\n') <= j)",
+    "partial0(j)": "brk0(j) and nba0(j + 1) and (not brk0(j + 1) or (old(self.buffer)[j:j + 1] == b'\\r' and "
+                   "old(self.buffer)[j + 1:j + 2] == b'\\n'))",
+}
+
+NEXT_EVENT_DATA = Contract(
+    id="MultipartDecoder.next_event[DATA]", file=MP, qualname="MultipartDecoder.next_event", props=["C01", "C15"],
+    params={"self": ObjT(MP + ":MultipartDecoder", buffer=Bytes, state=Int, complete=Bool, boundary=Bytes,
+                         boundary_re=ObjT("Pattern"))},
+    returns=None,
+    ghosts={"m": MG_T, "gi": Int}, forall_ghosts=["gi"],
+    requires=["self.state == 2",       # State.DATA: inside a part body
+              "self.boundary != b'' and not has(self.boundary, b'\\r') and not has(self.boundary, b'\\n')"],
+    defs=NE_DEFS, ufuncs={"last_index_of": ([Str, Str], Int)},
+    consts={"State": _state_ns, "NEED_DATA": VGlobal("NEED_DATA"), "NEED": VGlobal("NEED_DATA"), "NeedData": VClass("NeedData")},
+    stubs={"Data": _data_ctor,
+           "self.buffer.rindex": lambda ev, a, k, n: buffer_rindex(ev, ev.st.obj(ev.frame.lookup("self")).fields["buffer"], a, k, n)},
+    stub_methods={("Pattern", "search"): re_search_stub, ("Match", "start"): _m_start, ("Match", "end"): _m_end,
+                  ("Match", "group"): _m_group},
+    inline_callees=("MultipartDecoder.last_newline",),
+    modifies=["self.buffer", "self.state"], frame_check=False,
+    raises={"MalformedMultipart": "self.complete"},
+    raises_ensures={"MalformedMultipart": {"ensures": ["self.buffer == old(self.buffer)"]}},
+    ensures={
+        # nothing is lost and nothing is invented: what was buffered is what is emitted, then (only when the part ends) one
+        # delimiter, then what stays buffered
+        "need_data.keeps_everything": "implies(is_need(), self.buffer == old(self.buffer) and self.state == 2 and not self.complete)",
+        "more.conservation": "implies(is_data() and result.more_data, old(self.buffer) == result.data + self.buffer and "
+                             "self.state == 2 and result.data != b'')",
+        "last.conservation": "implies(is_data() and not result.more_data, m.found and "
+                             "old(self.buffer) == result.data + delim() + self.buffer)",
+        "last.next_state": "implies(is_data() and not result.more_data, self.state == (3 if m.g1.startswith(b'--') else 1))",
+        # a chunk released while the part goes on never contains the start of a delimiter that later bytes could complete
+        "more.released_bytes_are_safe": "implies(is_data() and result.more_data and 0 <= gi and gi < len(result.data), not partial0(gi))",
+    },
+    canaries={"never_ends_a_part": "is_need() or result.more_data"},
+    assumptions=["A-re-search", "A-bytes"],
+    notes="next_event restricted to the DATA state (requires).  The regex search is a stub whose outcome the ghost `m` names; "
+          "last_newline is executed inline.  Leftmost-match semantics, the PREAMBLE / PART / EPILOGUE states and the header "
+          "parser are not covered here (bounded layer).",
+)
+
+
+def _isinstance_model(ev, v, names):
+    if any(n.endswith("NeedData") for n in names):
+        if isinstance(v, VGlobal):
+            return v.name == "NEED_DATA"
+        if isinstance(v, VRef) and ev.st.obj(v).cls == "Data":
+            return False
+    return None
+
+
 def register(reg):
-    for c in (TWINS, LAST_NEWLINE):
+    for c in (TWINS, LAST_NEWLINE, NEXT_EVENT_DATA):
         reg.add(c)
+    reg.isinstance_model = _isinstance_model
     register2(reg)
 
 
